@@ -21,8 +21,8 @@ RULE = ("0/1 matrices with column names and secondary sets: random (<=8x6, densi
         "Each case runs: first solution, find_all twice, first again, find_all+max_solutions, max_iter limited runs. "
         "non-trivial = the find_all run performed >= 2 _cover calls; distinct = distinct (matrix, names, secondary, limits)")
 ASSUMPTIONS = [
-    "matrix has >= 1 row and >= 1 column, rectangular, entries 0/1 ([] and zero-column matrices carry no column "
-    "information; the code returns () by convention - excluded)",
+    "rectangular, entries 0/1; [] and matrices whose rows have no entry are run too (no column: the empty selection is "
+    "the one exact cover, find_all lists [()])",
     "column names are distinct hashable values; secondary names all occur among the column names",
     "max_solutions >= 1 when given; max_solutions=0 is run too and judged leniently (0 = no limit in the code, 'stop after "
     "this many' in the text: either reading accepted, but OPTIMAL with find_all must come with the complete list); max_iter >= 0",
@@ -265,6 +265,9 @@ def gen(stratum, rng, tier):
         # of rows selected) plus two rows covering a pair each, so that exactly four covers exist
         return {"kind": "scale", "n": rng.randint(450, 800), "pairs": sorted(rng.sample(range(200), 2)), "shuffle": rng.randrange(1 << 30)}
     if stratum == "random":
+        if rng.random() < 0.004:
+            # no column at all ([] or rows without entries): the empty selection is the one exact cover
+            return {"kind": "no-columns", "rows": rng.choice([0, 0, 1, 2, 3]), "tuple": rng.random() < 0.3}
         return _gen_random(rng, tier)
     if stratum == "planted":
         return _case(rng, *_gen_planted(rng, tier, 8 if tier == "quick" else 10))
@@ -709,7 +712,30 @@ def _run_too_deep(case, obs):
                 obs.violate("dlx.all.incomplete", f"[{what}] OPTIMAL with {len(got)} of the 2 covers listed")
 
 
+def _run_no_columns(case, obs):
+    from vf.common import call, is_crash
+
+    M = [[] for _ in range(case["rows"])]
+    if case["tuple"]:
+        M = tuple(tuple(r) for r in M)
+    obs.nontrivial = True
+    for fa in (False, True, False):
+        r = call(obs, _dlx.solve_exact_cover, M, find_all=fa, budget=BUDGET_SMALL, what=f"solve_exact_cover[no columns,{'all' if fa else 'first'}]")
+        if is_crash(r):
+            return
+        obs.event("xc.no-columns.judged")
+        if r.status != _St.OPTIMAL:
+            obs.violate("dlx.no-columns.status", f"{r.status.name} for a matrix with {case['rows']} rows and no column (the empty selection covers it)")
+        elif fa and [tuple(x) for x in (r.solution if isinstance(r.solution, list) else [None])] != [()]:
+            obs.violate("dlx.all.missing", f"find_all on a matrix with {case['rows']} rows and no column returned {r.solution!r}; "
+                                            f"the set of exact covers is [()]")
+        elif not fa and tuple(r.solution or ()) != ():
+            obs.violate("dlx.not-a-cover", f"a matrix without columns, selection {r.solution!r}")
+
+
 def run(case, obs):
+    if case["kind"] == "no-columns":
+        return _run_no_columns(case, obs)
     if case["kind"] == "too-deep":
         return _run_too_deep(case, obs)
     if case["kind"] == "scale":
